@@ -275,3 +275,10 @@ Definition tosql_tx (o : wopts) (t : str) (f : frame) (st : store) (fault : nat)
   : list call * store * bool :=
   let '(calls, st', ok, _) := tx_body o t f st 1 fault 0 in
   (rev calls, st', ok).
+(* ToSQLTxContext with a context that is cancelled once `cancel` calls have been processed (the caller's Begin
+   is call 1): later calls never reach the driver; the caller's transaction is still neither committed nor
+   rolled back by the library *)
+Definition tosql_tx_c (o : wopts) (t : str) (f : frame) (st : store) (fault cancel : nat)
+  : list call * store * bool :=
+  let '(calls, st', ok, _) := tx_body o t f st 1 fault cancel in
+  (rev calls, st', ok).
